@@ -188,6 +188,16 @@ func (n *node) unlock(viaBus bool, pw string, tmo int64) error {
 	return n.w.ProcWalletUnLock(req)
 }
 
+// unlockTicket is the ticket-only (mining) unlock: the password is verified, the wallet lock
+// flag and the unlock timer are not touched.
+func (n *node) unlockTicket(viaBus bool, pw string, tmo int64) error {
+	req := &types.WalletUnLock{Passwd: pw, Timeout: tmo, WalletOrTicket: true}
+	if viaBus {
+		return replyErr(n.bus("WalletUnLock", req))
+	}
+	return n.w.ProcWalletUnLock(req)
+}
+
 func (n *node) lock(viaBus bool) error {
 	if viaBus {
 		return replyErr(n.bus("WalletLock", &types.ReqNil{}))
